@@ -186,6 +186,40 @@ func init() {
 		"strings.EqualFold": func(ex *Exec, st *State, cc *ssa.CallCommon, a []Value) []Value {
 			return one(VBool{App("foldEq", SBool, strOf(a[0]), strOf(a[1]))})
 		},
+		"bytes.HasPrefix": func(ex *Exec, st *State, cc *ssa.CallCommon, a []Value) []Value {
+			s, p := ex.bytesOf(st, a[0]), ex.bytesOf(st, a[1])
+			if n, ok := Blen(p).U64(); ok && n <= 64 {
+				conj := []*Term{BVUge(Blen(s), BVU(64, n))}
+				for i := uint64(0); i < n; i++ {
+					conj = append(conj, Eq(Select(Barr(s), BVU(64, i)), Select(Barr(p), BVU(64, i))))
+				}
+				return one(VBool{And(conj...)})
+			}
+			return one(VBool{App("hasPrefixU", SBool, s, p)})
+		},
+		"github.com/cosmos/cosmos-sdk/types.MustAccAddressFromBech32": func(ex *Exec, st *State, cc *ssa.CallCommon, a []Value) []Value {
+			s := strOf(a[0])
+			ex.safe(st, "call:MustAccAddressFromBech32(invalid)", ValidBech32(s))
+			return one(ex.sliceOf(st, AccBytes(s), TFalse))
+		},
+		"(github.com/cosmos/cosmos-sdk/types.AccAddress).Bytes": func(ex *Exec, st *State, cc *ssa.CallCommon, a []Value) []Value {
+			return one(a[0])
+		},
+		"(github.com/cosmos/cosmos-sdk/types.AccAddress).Empty": func(ex *Exec, st *State, cc *ssa.CallCommon, a []Value) []Value {
+			return one(VBool{Eq(Blen(ex.bytesOf(st, a[0])), BV(64, 0))})
+		},
+		"cosmossdk.io/math.ZeroInt": func(ex *Exec, st *State, cc *ssa.CallCommon, a []Value) []Value {
+			return one(VBig{Nil: TFalse, V: BV(bigW, 0)})
+		},
+		"cosmossdk.io/math.OneInt": func(ex *Exec, st *State, cc *ssa.CallCommon, a []Value) []Value {
+			return one(VBig{Nil: TFalse, V: BV(bigW, 1)})
+		},
+		"cosmossdk.io/math.NewInt": func(ex *Exec, st *State, cc *ssa.CallCommon, a []Value) []Value {
+			return one(VBig{Nil: TFalse, V: SignExt(bigW, a[0].(VBV).T)})
+		},
+		"cosmossdk.io/math.NewIntFromUint64": func(ex *Exec, st *State, cc *ssa.CallCommon, a []Value) []Value {
+			return one(VBig{Nil: TFalse, V: ZeroExt(bigW, a[0].(VBV).T)})
+		},
 		"strings.HasPrefix": func(ex *Exec, st *State, cc *ssa.CallCommon, a []Value) []Value {
 			s, p := strOf(a[0]), strOf(a[1])
 			if n, ok := Blen(p).U64(); ok && n <= 64 {
@@ -347,6 +381,36 @@ func init() {
 			x := a[0].(VBig)
 			ex.safe(st, "call:math.Int.IsPositive(nil)", Not(x.Nil))
 			return one(VBool{BVSgt(x.V, BV(bigW, 0))})
+		},
+		"(cosmossdk.io/math.Int).GTE": func(ex *Exec, st *State, cc *ssa.CallCommon, a []Value) []Value {
+			x, y := a[0].(VBig), a[1].(VBig)
+			ex.safe(st, "call:math.Int.GTE(nil)", And(Not(x.Nil), Not(y.Nil)))
+			return one(VBool{BVSge(x.V, y.V)})
+		},
+		"(cosmossdk.io/math.Int).LT": func(ex *Exec, st *State, cc *ssa.CallCommon, a []Value) []Value {
+			x, y := a[0].(VBig), a[1].(VBig)
+			ex.safe(st, "call:math.Int.LT(nil)", And(Not(x.Nil), Not(y.Nil)))
+			return one(VBool{BVSlt(x.V, y.V)})
+		},
+		"(cosmossdk.io/math.Int).LTE": func(ex *Exec, st *State, cc *ssa.CallCommon, a []Value) []Value {
+			x, y := a[0].(VBig), a[1].(VBig)
+			ex.safe(st, "call:math.Int.LTE(nil)", And(Not(x.Nil), Not(y.Nil)))
+			return one(VBool{BVSle(x.V, y.V)})
+		},
+		"(cosmossdk.io/math.Int).Equal": func(ex *Exec, st *State, cc *ssa.CallCommon, a []Value) []Value {
+			x, y := a[0].(VBig), a[1].(VBig)
+			ex.safe(st, "call:math.Int.Equal(nil)", And(Not(x.Nil), Not(y.Nil)))
+			return one(VBool{Eq(x.V, y.V)})
+		},
+		"(cosmossdk.io/math.Int).IsZero": func(ex *Exec, st *State, cc *ssa.CallCommon, a []Value) []Value {
+			x := a[0].(VBig)
+			ex.safe(st, "call:math.Int.IsZero(nil)", Not(x.Nil))
+			return one(VBool{Eq(x.V, BV(bigW, 0))})
+		},
+		"(cosmossdk.io/math.Int).IsNegative": func(ex *Exec, st *State, cc *ssa.CallCommon, a []Value) []Value {
+			x := a[0].(VBig)
+			ex.safe(st, "call:math.Int.IsNegative(nil)", Not(x.Nil))
+			return one(VBool{BVSlt(x.V, BV(bigW, 0))})
 		},
 		"(cosmossdk.io/math.Int).GT": func(ex *Exec, st *State, cc *ssa.CallCommon, a []Value) []Value {
 			x, y := a[0].(VBig), a[1].(VBig)
